@@ -9,6 +9,8 @@ pub struct ChoiceLog {
     pub taken: Vec<u8>,
     pub arities: Vec<u8>,
     pub diverged: Option<String>,
+    /// answer given beyond the prefix (0 = default environment); clamped to arity-1
+    pub fallback: u8,
 }
 
 /// Handed to the environment (adapter wrapper, consumer): answers each choice point.
@@ -18,6 +20,10 @@ pub struct Chooser(pub Rc<RefCell<ChoiceLog>>);
 impl Chooser {
     pub fn with_prefix(prefix: &[u8]) -> Chooser {
         Chooser(Rc::new(RefCell::new(ChoiceLog { prefix: prefix.to_vec(), ..Default::default() })))
+    }
+    /// Every choice point answers `c` (clamped): e.g. "always pre-fetch everything".
+    pub fn constant(c: u8) -> Chooser {
+        Chooser(Rc::new(RefCell::new(ChoiceLog { fallback: c, ..Default::default() })))
     }
     /// Choice 0 is the default environment answer; anything else is a deviation.
     pub fn choose(&self, arity: u8) -> u8 {
@@ -32,7 +38,7 @@ impl Chooser {
                 c
             }
         } else {
-            0
+            l.fallback.min(arity.saturating_sub(1))
         };
         l.taken.push(c);
         l.arities.push(arity);
